@@ -533,3 +533,125 @@ class Report:
         print("OK property=%s tier=%s obligations=%d discharged=%d known=%d wall=%.1fs" %
               (self.prop, self.tier, self.obligations, self.discharged + 0, len(known_hits), wall))
         return 0
+
+
+def always_leaves(st):
+    """the statement never completes normally (ends in return / continue / break / throw on every branch)"""
+    if not isinstance(st, dict):
+        return False
+    k = st.get("k")
+    if k in ("return", "continue", "break", "throw"):
+        return True
+    if k == "block":
+        return bool(st["s"]) and always_leaves(st["s"][-1])
+    if k == "if":
+        return st.get("else") is not None and always_leaves(st["then"]) and always_leaves(st["else"])
+    return False
+
+
+def null_case_region(f, is_producer, first_of_pair=False, producer_fn="the lookup"):
+    """Statements executed exactly when the lookup `producer_fn` found nothing.  The lookup result (or, with first_of_pair,
+    its first component: std::get<0>(r) / r.first, possibly copied into a local) is tested against nullptr by one `if`;
+    the region is the branch taken for null, or, when that branch is absent and the other one always leaves, the
+    statements that follow the `if` in its block."""
+    t0 = set()
+    for x in walk(f["body"]):
+        vs = x["vars"] if x.get("k") == "decl" else ([x["var"]] if x.get("k") in ("if", "while") and x.get("var") else [])
+        for v in vs:
+            if v.get("init") is not None and any(is_producer(c) for c in calls(v["init"])):
+                t0.add(v["id"])
+
+    def is_res(e):
+        e = unwrap(e)
+        return isinstance(e, dict) and e.get("k") == "ref" and e.get("id") in t0
+
+    def is_first(e):
+        e = unwrap(e)
+        if not isinstance(e, dict):
+            return False
+        if e.get("k") == "call" and e.get("f", "").startswith("std::get<0") and e.get("a") and is_res(e["a"][0]):
+            return True
+        if e.get("k") == "mem" and e.get("n") == "first" and is_res(e["b"]):
+            return True
+        return False
+    t1 = set()
+    if first_of_pair:
+        for x in walk(f["body"]):
+            if x.get("k") == "decl":
+                for v in x["vars"]:
+                    if v.get("init") is not None and is_first(v["init"]):
+                        t1.add(v["id"])
+
+    def is_target(e):
+        u = unwrap(e)
+        if not isinstance(u, dict):
+            return False
+        if first_of_pair:
+            return is_first(u) or (u.get("k") == "ref" and u.get("id") in t1)
+        return is_res(u)
+
+    def null_polarity(c):
+        """True: the condition holds when the target is null; False: when it is non-null; None: not a null test"""
+        c = unwrap(c)
+        if not isinstance(c, dict):
+            return None
+        if c.get("k") == "un" and c.get("op") == "!":
+            r = null_polarity(c["e"])
+            return None if r is None else not r
+        if c.get("k") == "call" and c.get("fn") == "operator bool" and c.get("obj") is not None and is_target(c["obj"]):
+            return False
+        ops = None
+        if c.get("k") == "bin" and c.get("op") in ("==", "!="):
+            ops = (c["op"], c["lhs"], c["rhs"])
+        elif c.get("k") == "call" and c.get("op") in ("==", "!=") and len(c.get("a", [])) + (1 if c.get("obj") is not None else 0) == 2:
+            aa = ([c["obj"]] if c.get("obj") is not None else []) + list(c["a"])
+            ops = (c["op"], aa[0], aa[1])
+        if ops:
+            op, l, r = ops
+            isnull = lambda z: isinstance(unwrap(z), dict) and (unwrap(z).get("k") == "null" or short(z) in ("nullptr", "std::shared_ptr{nullptr}", "std::unique_ptr{nullptr}"))
+            if (is_target(l) and isnull(r)) or (is_target(r) and isnull(l)):
+                return op == "=="
+            return None
+        if is_target(c):
+            return False
+        return None
+    hits = []
+
+    def rec(st, following):
+        if isinstance(st, list):
+            for i, x in enumerate(st):
+                rec(x, st[i + 1:])
+            return
+        if not isinstance(st, dict):
+            return
+        k = st.get("k")
+        if k == "block":
+            rec(st["s"], None)
+            return
+        if k == "if":
+            cond = st["c"] if st.get("c") is not None else None
+            if cond is None and st.get("var") and st["var"]["id"] in (t0 if not first_of_pair else t1):
+                pol = False
+            else:
+                pol = null_polarity(cond) if cond is not None else None
+            if pol is not None:
+                nb, ob = (st["then"], st.get("else")) if pol else (st.get("else"), st["then"])
+                if nb is not None:
+                    rest = list(following or []) if not always_leaves(nb) else []
+                    hits.append((st, [nb] + rest, ([ob] if ob is not None else []) + (list(following or []) if ob is None or not always_leaves(ob) else [])))
+                elif always_leaves(ob) and following is not None:
+                    hits.append((st, list(following), [ob]))
+                else:
+                    raise Broken("%s: the not-found case of %s is neither a branch nor the fall-through after a leaving branch (unmodelled shape at %s)" % (f["q"], producer_fn, st.get("l")))
+            rec(st["then"], None)
+            rec(st.get("else"), None)
+            return
+        for key in ("body", "s", "sub", "try", "handlers"):
+            if key in st:
+                rec(st[key], None)
+    rec(f["body"], None)
+    if len(hits) != 1:
+        raise Broken("%s no longer tests the result of %s against nullptr exactly once (found %d tests; unmodelled shape)" % (f["q"], producer_fn, len(hits)))
+    return hits[0]
+
+
